@@ -229,6 +229,23 @@ func (p *c01) Init(tier string, seed int64) {
 			return t[:j] + b + t[j:]
 		})
 	}
+	// (vi') unclosed alternations of two openers: anything that rescans the rest of the input per level shows as time
+	{
+		openers := []string{"\"", "'", "#{", "(", "[", "{", "{{", "{%", "\"#{", "a|f(", "{# ", "[\""}
+		depths := []int{20, 60}
+		if p.thorough() {
+			depths = append(depths, 500, 3000)
+		}
+		n := len(openers) * len(openers) * len(depths) * 2
+		p.add("alternation", n, func(i int) string {
+			d := depths[i%len(depths)]
+			i /= len(depths)
+			pre := []string{"{{ ", "{% if "}[i%2]
+			i /= 2
+			a, b := openers[i%len(openers)], openers[i/len(openers)]
+			return pre + strings.Repeat(a+b, d)
+		})
+	}
 	// (vi) nesting ladders
 	{
 		depths := []int{1, 2, 3, 5, 10, 50, 200}
@@ -391,7 +408,7 @@ func fragShape(s string) string {
 }
 
 func (p *c01) Rule() string {
-	return "inputs: every byte prefix of the seed corpus (repo tests/examples/testdata + hand-written, one per tag/operator); single-fragment deletion, duplication and insertion at every fragment boundary of every corpus template; bounded-exhaustive sequences over a 26-fragment hostile alphabet (length<=3 quick, <=5 thorough); seeded random byte / delimiter-alphabet / fragment strings; hostile bytes (NUL, 0xFF, truncated UTF-8, CR, CRLF, FF, VT, ESC, DEL, NEL, NBSP, BOM, ZWSP, U+2028/9) substituted at corpus positions; every byte value 0..255 substituted and inserted at every position of 8 short templates (one per tokeniser mode); every single-fragment mutant again inside 11 wrappers (embed body, embed block, macro, block, capture, verbatim, comment, interpolation, if/else, for, filter); nesting ladders (balanced, open-only and close-only, incl. strings nested in interpolations) to depth 200 (quick) / 9000 (thorough). Each input goes through parse.Parse, core Env.Parse and Twig Env.Parse (3 evaluations). Non-trivial = contains an opening delimiter; distinct = (error kind with numbers stripped, first 12 fragment classes)."
+	return "inputs: every byte prefix of the seed corpus (repo tests/examples/testdata + hand-written, one per tag/operator); single-fragment deletion, duplication and insertion at every fragment boundary of every corpus template; bounded-exhaustive sequences over a 26-fragment hostile alphabet (length<=3 quick, <=5 thorough); seeded random byte / delimiter-alphabet / fragment strings; hostile bytes (NUL, 0xFF, truncated UTF-8, CR, CRLF, FF, VT, ESC, DEL, NEL, NBSP, BOM, ZWSP, U+2028/9) substituted at corpus positions; every byte value 0..255 substituted and inserted at every position of 8 short templates (one per tokeniser mode); every single-fragment mutant again inside 11 wrappers (embed body, embed block, macro, block, capture, verbatim, comment, interpolation, if/else, for, filter); unclosed alternations of every pair of 12 openers (quote, #{, brackets, delimiters ...) to depth 60 / 3000; nesting ladders (balanced, open-only and close-only, incl. strings nested in interpolations) to depth 200 (quick) / 9000 (thorough). Each input goes through parse.Parse, core Env.Parse and Twig Env.Parse (3 evaluations). Non-trivial = contains an opening delimiter; distinct = (error kind with numbers stripped, first 12 fragment classes)."
 }
 
 func (p *c01) Assumptions() []string {
